@@ -55,6 +55,33 @@ fn fixtures() -> Vec<Vec<B>> {
     v
 }
 
+/// Commands whose interesting failures need several well-formed arguments at once: templates with
+/// typed holes (K key, G group, C consumer, ID stream id, N number, S string) filled from boundary pools.
+const TEMPLATES: &[&str] = &[
+    "XPENDING K G ID ID N", "XPENDING K G ID ID N C", "XPENDING K G", "XCLAIM K G C N ID", "XCLAIM K G C N ID ID JUSTID", "XCLAIM K G C N ID FORCE", "XCLAIM K G C N ID IDLE N RETRYCOUNT N",
+    "XAUTOCLAIM K G C N ID COUNT N", "XAUTOCLAIM K G C N ID COUNT N JUSTID", "XREADGROUP GROUP G C COUNT N STREAMS K ID", "XREADGROUP GROUP G C NOACK STREAMS K K ID ID", "XREAD COUNT N STREAMS K ID",
+    "XREAD STREAMS K K ID ID", "XRANGE K ID ID COUNT N", "XREVRANGE K ID ID COUNT N", "XADD K ID S S", "XADD K ID S S S S", "XTRIM K MAXLEN N", "XTRIM K MAXLEN ~ N", "XTRIM K MINID ID", "XDEL K ID ID",
+    "XGROUP CREATE K G ID MKSTREAM", "XGROUP CREATE K G ID", "XGROUP SETID K G ID", "XGROUP DELCONSUMER K G C", "XGROUP DESTROY K G", "XGROUP CREATECONSUMER K G C", "XINFO STREAM K", "XINFO GROUPS K", "XINFO CONSUMERS K G",
+    "XACK K G ID ID", "XLEN K", "ZRANGEBYSCORE K N N LIMIT N N", "ZREVRANGEBYSCORE K N N WITHSCORES LIMIT N N", "ZRANGE K N N WITHSCORES", "ZREVRANGE K N N", "ZADD K N S N S", "ZINCRBY K N S", "ZCOUNT K N N",
+    "ZPOPMIN K N", "ZPOPMAX K N", "ZRANK K S", "SCAN N MATCH S COUNT N TYPE S", "SCAN N COUNT N", "HSCAN K N MATCH S COUNT N", "SSCAN K N COUNT N", "ZSCAN K N MATCH S COUNT N", "SETRANGE K N S", "GETRANGE K N N",
+    "LRANGE K N N", "LTRIM K N N", "LSET K N S", "LINDEX K N", "LREM K N S", "SRANDMEMBER K N", "SPOP K N", "EXPIRE K N", "PEXPIRE K N", "SETEX K N S", "PSETEX K N S", "SET K S EX N", "SET K S PX N", "SET K S PX N NX",
+    "INCRBY K N", "DECRBY K N", "HINCRBY K S N", "SELECT N", "EVAL S N K K", "EVAL S N", "EVALSHA S N K", "MEMORY USAGE K", "OBJECT ENCODING K", "RENAME K K", "RENAMENX K K", "MSET K S K S", "HMGET K S S", "HSET K S S S S",
+];
+const IDS: &[&str] = &["0", "0-0", "0-1", "1-1", "1-0", "1-2", "5-5", "-", "+", "$", ">", "*", "18446744073709551615-18446744073709551615", "18446744073709551615-0", "18446744073709551616-0", "1-18446744073709551616", "1-", "-1", "abc", "(1-1", "1-1-1", ""];
+
+fn templated(r: &mut Rng) -> Vec<B> {
+    let t = *r.pick(TEMPLATES);
+    t.split(' ').map(|tok| match tok {
+        "K" => b(*r.pick(KEYS)),
+        "G" => b(*r.pick(&["g1", "g1", "nogroup", ""])),
+        "C" => b(*r.pick(&["c1", "c2", ""])),
+        "ID" => b(*r.pick(IDS)),
+        "N" => if r.chance(1, 2) { b(*r.pick(BOUNDARY)) } else { b(*r.pick(&["0", "1", "2", "10", "-1", "100"])) },
+        "S" => b(*r.pick(&["a", "f", "m1", "*", "", "return 1", "return redis.call('PING')", "string", "zset", "k*", "[", "\\"])),
+        lit => b(lit),
+    }).collect()
+}
+
 fn hostile_frame(r: &mut Rng) -> Vec<u8> {
     match r.below(16) {
         0 => b"*2147483647\r\n".to_vec(),
@@ -87,7 +114,7 @@ pub fn gen(seed: u64, idx: u64, tier: Tier) -> Scenario {
     let space = table.len() as u64 * 4 * BOUNDARY.len() as u64;
     let mut cursor = (idx * n as u64) % space.max(1);
     for i in 0..n {
-        let mode = if idx % 3 == 2 { r.below(5) } else { 0 };
+        let mode = if idx % 3 == 2 { r.below(5) } else if idx % 3 == 1 { 5 } else { 0 };
         match mode {
             0 | 1 => {
                 // boundary enumeration: command c, argument position p gets boundary value v, the rest plausible
@@ -120,6 +147,12 @@ pub fn gen(seed: u64, idx: u64, tier: Tier) -> Scenario {
                 let mut a = vec![b(&name)];
                 for p in 0..r.range(0, 6) { if p == 0 && r.chance(3, 4) { a.push(b(*r.pick(KEYS))); } else { a.push(b(*r.pick(BOUNDARY))); } }
                 sc.steps.push(Step::Cmd { c: 1, a, split: vec![] });
+            }
+            5 => { // structured commands: every hole filled from the boundary pools, a delivered entry to claim / acknowledge
+                if i == 0 { sc.steps.push(Step::Cmd { c: 1, a: vec![b("XREADGROUP"), b("GROUP"), b("g1"), b("c1"), b("STREAMS"), b("kstream"), b(">")], split: vec![] }); }
+                let a = templated(&mut r);
+                if r.chance(1, 10) { let mut e = vec![b("EVAL"), b("return redis.call(unpack(ARGV))"), b("0")]; e.extend(a); sc.steps.push(Step::Cmd { c: 1, a: e, split: vec![] }); }
+                else { sc.steps.push(Step::Cmd { c: 1, a, split: vec![] }); }
             }
             3 => { // byte-level hostile frame on its own connection, optionally closed right after
                 let c = 10 + i as usize;
@@ -222,7 +255,7 @@ fn verb_of(args: &[Vec<u8>]) -> String {
 pub static DEF: CheckDef = CheckDef {
     id: "C06", level: "exploration", gen, exec,
     nontrivial: |o| o.counters.get("cmds").copied().unwrap_or(0) + o.counters.get("hostile_frames").copied().unwrap_or(0) >= 20 && o.counters.get("probes").copied().unwrap_or(0) >= 1,
-    rule: "one run = 60-150 hostile inputs against a server holding keys of all six types and sentinel data: (a) a systematic walk, indexed by the run number, over (every command name extracted from the dispatch match arms of /repo's server.rs and executor.rs at check time + a static list) x argument position x 50 boundary values (0, +-1, i64/u64/u32 bounds and beyond, 1e400, nan, inf, huge digit strings, option keywords, stream-id forms), sent directly, inside MULTI/EXEC and through redis.call; (b) random commands with several boundary arguments; (c) byte-level hostile frames (absurd declared lengths, 200k-deep nesting, truncated frames then close, random bytes); (d) blocked/subscribed/mid-transaction connections that vanish. Oracle after every 10 inputs and at the end: no thread of the server panicked, no exit(), no deadlock, no hang (watchdog), largest single allocation <= 64 MiB + 8 x bytes sent (allocator seam), and a NEW connection gets PONG and reads the sentinel data intact; non-trivial = at least 20 hostile inputs and one probe; distinct = distinct event-log hash",
+    rule: "one run = 60-150 hostile inputs against a server holding keys of all six types and sentinel data: (a0) in every third run, 80 multi-argument command templates (stream, consumer-group, sorted-set range, scan, index, expiry, script commands) whose typed holes - key, group, consumer, stream id, number, string - are filled from boundary pools; (a) a systematic walk, indexed by the run number, over (every command name extracted from the dispatch match arms of /repo's server.rs and executor.rs at check time + a static list) x argument position x 50 boundary values (0, +-1, i64/u64/u32 bounds and beyond, 1e400, nan, inf, huge digit strings, option keywords, stream-id forms), sent directly, inside MULTI/EXEC and through redis.call; (b) random commands with several boundary arguments; (c) byte-level hostile frames (absurd declared lengths, 200k-deep nesting, truncated frames then close, random bytes); (d) blocked/subscribed/mid-transaction connections that vanish. Oracle after every 10 inputs and at the end: no thread of the server panicked, no exit(), no deadlock, no hang (watchdog), largest single allocation <= 64 MiB + 8 x bytes sent (allocator seam), and a NEW connection gets PONG and reads the sentinel data intact; non-trivial = at least 20 hostile inputs and one probe; distinct = distinct event-log hash",
     quick_budget_s: 45.0, thorough_budget_s: 1200.0, quick_max_runs: 1_000_000, thorough_max_runs: 100_000_000, exhaustive: false, exhaustive_after: |_| 0,
     real: REAL_WHOLE_SERVER, stub: STUB_WHOLE_SERVER, assumptions: ASSUME_COMMON,
 };
